@@ -317,6 +317,22 @@ def merge_results(results):
     return m
 
 
+def health(ctx, required, share=0.01, total=None):
+    """Generator health: classes the design calls interesting must actually occur.  A class below `share` of the
+    evaluations is recorded in the evidence notes ("thin_classes"); only a class that is (nearly) absent -- fewer than
+    share/8 of the evaluations, or never -- makes the check exit 2, and only when no violation cut the run short."""
+    total = total or ctx.evaluations
+    if total < 100:
+        return
+    thin = sorted(c for c in required if ctx.classes.get(c, 0) < share * total)
+    absent = sorted(c for c in required if ctx.classes.get(c, 0) == 0 or ctx.classes.get(c, 0) < share * total / 8.0)
+    if thin:
+        ctx.notes["thin_classes"] = {c: ctx.classes.get(c, 0) for c in thin}
+    ctx.notes["generator_health"] = "%d required classes, %d below %.1f%% of %d evaluations" % (len(required), len(thin), share * 100, total)
+    if absent and not ctx.violations:
+        raise HarnessError("generator unhealthy: required classes (nearly) absent in %d evaluations: %s" % (total, {c: ctx.classes.get(c, 0) for c in absent}))
+
+
 def fmt_exc(e):
     return "%s: %s" % (type(e).__name__, short(str(e), 300))
 
